@@ -101,7 +101,18 @@ class Builder:
         self.ops_built = n
         return nodes[-1]
 
+    def stackfan(self, n):
+        """ONE operation with n operands: stack of n branches leaf*c_i, summed (backward must stay linear in the number of operands of a node too)"""
+        np = self.np
+        cs = [1.0 + (i % 13) * 1e-3 for i in range(n)]
+        ts = [self.leaf * self.sg.tensor([c, c, c], dtype=np.float64) for c in cs]
+        y = self.F.sum(self.F.stack(ts, 0), 0)
+        self.ops += n + 2
+        return y, np.ones(3) * float(sum(cs))
+
     def build(self, family, n):
+        if family == "stack":
+            return self.stackfan(n)
         if family.startswith("dag"):
             return self.dag(n, int(family[3:] or 0))
         if family == "chain":
@@ -238,6 +249,24 @@ def untracked_loop(mode, length):
     w = sg.tensor([1.0, 2.0, 3.0], requires_grad=track)
     g = sg.tensor([0.5, -0.5, 0.25], requires_grad=track)
     w0, refs = w.data.copy(), []
+    if mode.endswith("varying"):
+        # the Python-number coefficient takes a new value at every step (running averages, decaying rates): nothing may be kept per distinct number
+        total = 0.0
+        with (sg.no_grad() if track else nullcontext()):
+            for t in range(length):
+                refs.append(weakref.ref(w))
+                c = 0.1 / (1.0 + t)
+                total += c
+                w = w - c * g
+                w = w * (1.0 + 1e-9 * t) / (1.0 + 1e-9 * t)
+        gc.collect()
+        alive = sum(1 for r in refs if r() is not None)
+        res = {"mode": mode, "loop": length, "operands_alive": alive, "live_tensors_added": live_tensors() - base,
+               "result_requires_grad": bool(w.requires_grad), "result_has_grad_fn": w._grad_fn is not None,
+               "value_ok": bool(np.allclose(w.data, w0 - total * g.data, rtol=1e-2))}
+        del w, g, refs
+        gc.collect()
+        return res
     if mode == "no_grad_reused":
         # a stored no_grad object (built while tracking was on) re-used inside an open no_grad block: everything up to the end of the
         # OUTER block is untracked
